@@ -324,7 +324,7 @@ func c12DrawScenario(t *rapid.T, run *c12Run) {
 	}
 	perm := rapid.Permutation(corrupt).Draw(t, "scenarioRoles")
 	a, b := perm[0], perm[1]
-	switch rapid.IntRange(0, 3).Draw(t, "scenarioKind") {
+	switch rapid.IntRange(0, 4).Draw(t, "scenarioKind") {
 	case 0:
 		// a sends b a bad share, b keeps quiet about it, a then fails in
 		// phase 7 so its key must be reconstructed; b reveals (or not)
@@ -363,6 +363,21 @@ func c12DrawScenario(t *rapid.T, run *c12Run) {
 		b.scriptPeer = a.idx
 		run.note("scenario mutual-accusation m%d m%d", a.idx, b.idx)
 		run.fired["scenario:mutual-accusation"] = true
+	case 4:
+		// a sends b a bad share; b publishes the justified accusation against
+		// a TOGETHER with a false one (honest member or invalid index) in the
+		// same message - in phase 4 or, with bad points, in phase 8
+		if rapid.Bool().Draw(t, "scnPhase8") {
+			a.script = map[string]string{"p7": "points-random"}
+			b.script = map[string]string{"p8": "add-false-accusation"}
+		} else {
+			a.script = map[string]string{"p3": rapid.SampledFrom([]string{"wrong-shares-for-peer", "garbage-shares-for-peer"}).Draw(t, "scnShare4")}
+			b.script = map[string]string{"p4": "add-false-accusation"}
+		}
+		a.scriptPeer = b.idx
+		b.scriptPeer = a.idx
+		run.note("scenario justified-plus-false-accusation m%d about m%d", b.idx, a.idx)
+		run.fired["scenario:justified-plus-false-accusation"] = true
 	}
 }
 
@@ -432,6 +447,36 @@ func (r *c12Run) scripted(t *rapid.T, m *c12Member, out []net.TaggedMarshaler, b
 			alt.publicKeySharePoints = append(alt.publicKeySharePoints, new(bn256.G2).ScalarBaseMult(c12RandScalar()))
 		}
 		return []net.TaggedMarshaler{alt}
+	case "add-false-accusation":
+		target, kind := r.drawTarget(t, m.idx, "scnFalseTarget")
+		for target == m.scriptPeer {
+			target, kind = r.honestSeat(t, "scnFalseTarget2"), "honest"
+		}
+		add := func(acc map[group.MemberIndex]*ephemeral.PrivateKey, keys map[group.MemberIndex]*ephemeral.KeyPair) {
+			if kp, ok := keys[target]; ok && rapid.Bool().Draw(t, "scnFalseRealKey") {
+				acc[target] = kp.PrivateKey
+			} else {
+				acc[target] = c12FreshKey()
+			}
+		}
+		r.note("m%d false target %s-%d", m.idx, kind, target)
+		switch msg := out[0].(type) {
+		case *SecretSharesAccusationsMessage:
+			alt := &SecretSharesAccusationsMessage{senderID: msg.senderID, sessionID: msg.sessionID, accusedMembersKeys: map[group.MemberIndex]*ephemeral.PrivateKey{}}
+			for k, v := range msg.accusedMembersKeys {
+				alt.accusedMembersKeys[k] = v
+			}
+			add(alt.accusedMembersKeys, m.st.(*commitmentsVerificationState).member.ephemeralKeyPairs)
+			return []net.TaggedMarshaler{alt}
+		case *PointsAccusationsMessage:
+			alt := &PointsAccusationsMessage{senderID: msg.senderID, sessionID: msg.sessionID, accusedMembersKeys: map[group.MemberIndex]*ephemeral.PrivateKey{}}
+			for k, v := range msg.accusedMembersKeys {
+				alt.accusedMembersKeys[k] = v
+			}
+			add(alt.accusedMembersKeys, m.st.(*pointsValidationState).member.ephemeralKeyPairs)
+			return []net.TaggedMarshaler{alt}
+		}
+		return out
 	case "reveal-add-peer":
 		msg := out[0].(*MisbehavedEphemeralKeysMessage)
 		st := m.st.(*keyRevealState)
